@@ -32,6 +32,9 @@ def c13(tier):
             runs.append(H("c13_graphdiv", cfg, 2 * R_GRAPHOBJ, topo, env=ENV, params=dict(focus="graphobj"),
                           timeout_per_case=120))
         runs.append(H("c13_blocks", "asan", E_BLOCKS + R_BLOCKS, "12,12,8", env=ENV, timeout_per_case=60))
+        # DistGraph host ranges (libcusp computeMasters): dist build, 1..4 MPI hosts
+        for np in (1, 2, 3, 4):
+            runs.append(H("c13_dist", "dist", 8, None, env=ENV, mpi=np, timeout_per_case=120, timeout_base=180))
     return runs
 
 
